@@ -53,7 +53,8 @@ class Watchdog(LiteXModule):
 
         self.sync += [
             If(self.feed, 
-                remaining.status.eq(cycles.storage)
+                remaining.status.eq(cycles.storage),
+                self.execute.eq(0)
             ).Elif(self.enable,
                 If(remaining.status != 0,
                     remaining.status.eq(remaining.status - 1)
